@@ -1,4 +1,6 @@
 import Ekit.Props.C04
+import Ekit.Props.C04Rev
+import Ekit.Props.C04Ring
 open Ekit.Lists
 #print axioms c04_calCapacity_matches_source
 #print axioms c04_arrayList_step_refines
@@ -12,3 +14,18 @@ open Ekit.Lists
 #print axioms c04_cow_step_refines
 #print axioms c04_cow_err_unchanged
 #print axioms c04_anyList_step_refines
+-- review additions (Ekit/Props/C04Rev.lean)
+#print axioms c04_spec_err_unchanged
+#print axioms c04_anyList_no_panic
+#print axioms c04_anyList_err_unchanged
+#print axioms c04_anyList_err_iff_out_of_range
+#print axioms c04_anyList_run_refines
+#print axioms c04_anyList_run_no_panic
+#print axioms c04_arrayList_run_len_le_cap
+#print axioms c04_arrayList_len_le_cap_always
+#print axioms c04_arrayList_new
+#print axioms c04_linked_walk_loops
+#print axioms c04_cow_delete_loop
+-- review additions: the pointer-level linked list (Ekit/Props/C04Ring.lean)
+#print axioms Ekit.Lists.Ring.c04_ring_step_refines
+#print axioms Ekit.Lists.Ring.c04_ring_run_refines
